@@ -314,44 +314,12 @@ pub(crate) fn c06_intersect_multi2_multi2() {
     check_intersect(mk_cand(C_MULTI, 2), mk_cand(C_MULTI, 2));
 }
 
-// @harness c06_intersect_multi3_impossible tier=thorough heavy=1 kind=bounded bound="Multiple vector of length 3" timeout=1200 unwindset="swap_nonoverlapping=10"
-// @ob CandidateValue::intersect of Multiple(len 3) with impossible in either operand order: exact for every probe, invariant preserved, normalized
-#[kani::proof]
-#[kani::unwind(5)]
-pub(crate) fn c06_intersect_multi3_impossible() {
-    check_intersect(mk_cand(C_MULTI, 3), mk_cand(0, 0));
-}
-
-// @harness c06_intersect_multi3_single tier=thorough heavy=1 kind=bounded bound="Multiple vector of length 3" timeout=1200 unwindset="swap_nonoverlapping=10"
-// @ob CandidateValue::intersect of Multiple(len 3) with single in either operand order: exact for every probe, invariant preserved, normalized
-#[kani::proof]
-#[kani::unwind(5)]
-pub(crate) fn c06_intersect_multi3_single() {
-    check_intersect(mk_cand(C_MULTI, 3), mk_cand(1, 0));
-}
-
 // @harness c06_intersect_multi3_all tier=thorough heavy=1 kind=bounded bound="Multiple vector of length 3" timeout=1200 unwindset="swap_nonoverlapping=10"
 // @ob CandidateValue::intersect of Multiple(len 3) with all in either operand order: exact for every probe, invariant preserved, normalized
 #[kani::proof]
 #[kani::unwind(5)]
 pub(crate) fn c06_intersect_multi3_all() {
     check_intersect(mk_cand(C_MULTI, 3), mk_cand(3, 0));
-}
-
-// @harness c06_intersect_multi3_multi1 tier=thorough heavy=1 kind=bounded bound="Multiple vectors of lengths 3 and 1" timeout=1200 unwindset="swap_nonoverlapping=10"
-// @ob CandidateValue::intersect of Multiple(len 3) with Multiple(len 1) in either order: exact for every probe, normalized
-#[kani::proof]
-#[kani::unwind(5)]
-pub(crate) fn c06_intersect_multi3_multi1() {
-    check_intersect(mk_cand(C_MULTI, 3), mk_cand(C_MULTI, 1));
-}
-
-// @harness c06_intersect_multi3_multi2 tier=thorough heavy=1 kind=bounded bound="Multiple vectors of lengths 3 and 2" timeout=1200 unwindset="swap_nonoverlapping=10"
-// @ob CandidateValue::intersect of Multiple(len 3) with Multiple(len 2) in either order: exact for every probe, normalized
-#[kani::proof]
-#[kani::unwind(5)]
-pub(crate) fn c06_intersect_multi3_multi2() {
-    check_intersect(mk_cand(C_MULTI, 3), mk_cand(C_MULTI, 2));
 }
 
 // @harness c06_intersect_multi3_multi3 tier=thorough heavy=1 kind=bounded bound="Multiple vectors of lengths 3 and 3" timeout=1200 unwindset="swap_nonoverlapping=10"
